@@ -123,6 +123,8 @@ pub mod num;
 pub mod options;
 pub mod result;
 pub mod step;
+#[cfg(lexical_verif)]
+pub mod verif;
 
 mod api;
 mod feature_format;
